@@ -2,7 +2,15 @@
 from vlib.core import Stage
 
 ID = "C05"
-STAGES = [Stage("spd", "p05_spd", "plain", {"quick": 120, "thorough": 5000}, timeout_per_case=240)]
+import os
+from vlib import core as _core
+
+STAGES = [
+    Stage("spd", "p05_spd", "plain", {"quick": 120, "thorough": 5000}, timeout_per_case=240),
+    # the recorded input of the open finding F17 (fixed grid and geometry parameters from /verif/findings): reproduces it on every run
+    Stage("f17-witness", "p05_spd", "plain", {"quick": 1, "thorough": 1}, args={"witness": os.path.join(_core.VERIF, "findings", "F17_witness.txt")},
+          offset=9000000, timeout_per_case=240),
+]
 THRESHOLDS = {
     # |<Ax,y> - <x,Ay>| / (|x|^T|A||y| + |y|^T|A||x|) over non-Dirichlet rows
     "symmetry_inner_product": 1e-12,
